@@ -160,6 +160,45 @@ func factsKeeper() {
 		}
 	}
 	emit("/-- the functions the keeper model covers have the same text in the v1 and v2 keepers (differing: %v) -/\ndef keeperV2SameAsV1 : Bool := %v", diffs, same)
+	// lock re-entrancy: a SpaceKeeper method that holds stateLock until it returns (`defer ...Unlock()`) and calls
+	// another SpaceKeeper method that takes stateLock (sync.RWMutex is not re-entrant: with a writer waiting in
+	// between, even a nested RLock deadlocks)
+	for _, x := range []struct{ lean, dir string }{{"keeperLockReentrant", v1}, {"keeperLockReentrantV2", v2}} {
+		p := loadPkg(x.dir)
+		locking := map[string]bool{}
+		src := map[string]string{}
+		for _, f := range p.files {
+			for _, d := range f.Decls {
+				fd, ok := d.(*ast.FuncDecl)
+				if !ok || fd.Recv == nil || fd.Body == nil {
+					continue
+				}
+				t := srcOf(x.dir, fd)
+				src[fd.Name.Name] = t
+				if strings.Contains(t, "stateLock.Lock()") || strings.Contains(t, "stateLock.RLock()") {
+					locking[fd.Name.Name] = true
+				}
+			}
+		}
+		var pairs []string
+		var names []string
+		for n := range src {
+			names = append(names, n)
+		}
+		sort.Strings(names)
+		for _, n := range names {
+			t := src[n]
+			if !locking[n] || !(strings.Contains(t, "defer sk.stateLock.Unlock()") || strings.Contains(t, "defer sk.stateLock.RUnlock()")) {
+				continue
+			}
+			for _, m := range names {
+				if locking[m] && m != n && strings.Contains(t, "sk."+m+"(") {
+					pairs = append(pairs, fmt.Sprintf("(%s, %s)", leanStr(n), leanStr(m)))
+				}
+			}
+		}
+		emit("/-- %s: (method holding stateLock to its end, stateLock-taking method it calls) -/\ndef %s : List (String × String) := [%s]", x.dir, x.lean, strings.Join(pairs, ", "))
+	}
 }
 
 func isPlotterChan(e ast.Expr) bool {
